@@ -87,7 +87,7 @@ func zxOp(what string) {
 	zxOpCount++
 	zxOps = append(zxOps, what)
 	if zxCrashAt != 0 && zxOpCount == zxCrashAt {
-		panic(zxCrash{})
+		vrtCrash()
 	}
 }
 
